@@ -22,6 +22,20 @@ def is_inc(n, target):
     return n.kind == 'stmt' and isinstance(n.ast, ast.AugAssign) and isinstance(n.ast.op, ast.Add) and unparse(n.ast.target) == target and unparse(n.ast.value) == '1'
 
 
+def _is_pair_loop(fn, loop):
+    """`for donor_tx, accepter_tx in <itertools.product(...)>` - the iterable may be held in a local of any name"""
+    from sa import sem
+    if not (isinstance(loop.target, ast.Tuple) and len(loop.target.elts) == 2):
+        return False
+    it = loop.iter
+    if isinstance(it, ast.Name):
+        for a in ast.walk(fn):
+            if isinstance(a, ast.Assign) and len(a.targets) == 1 and isinstance(a.targets[0], ast.Name) and a.targets[0].id == it.id:
+                it = a.value
+                break
+    return isinstance(it, ast.Call) and call_name(it) == 'product'
+
+
 def run(chk, repo):
     chk.clauses = [
         'C15.a every parsed record is counted exactly once as succeeded or skipped, and every skip has exactly one reason',
@@ -103,7 +117,7 @@ def run(chk, repo):
             fn = ast.parse(unparse(p.node)).body[0]
             new_body = []
             for st in fn.body:
-                if isinstance(st, ast.For) and 'perms' in unparse(st.iter):
+                if isinstance(st, ast.For) and _is_pair_loop(fn, st):
                     new_body += st.body
                 else:
                     new_body.append(st)
@@ -127,7 +141,7 @@ def run(chk, repo):
                 got.add((repr(l.get('start')), repr(l.get('end')), repr(acc), repr(x.env.get('fusion_id'))[:0]))
             forms[(tool, s)] = got
         # id / location / attrs consistency (text level, inside the loop)
-        lp = next((l for l in walk_no_nested(p.node) if isinstance(l, ast.For) and 'perms' in unparse(l.iter)), None)
+        lp = next((l for l in walk_no_nested(p.node) if isinstance(l, ast.For) and _is_pair_loop(p.node, l)), None)
         if lp is None:
             raise AnalysisError(f"anchor={pq}: transcript-pair loop not found")
         loc = [x for x in G.find_calls(lp, 'FeatureLocation')]
